@@ -27,6 +27,9 @@ func fam(name string) cli.Family {
 
 var dest = &net.UDPAddr{IP: net.IPv4bcast, Port: 67}
 
+// where a datagram comes from is nobody's business: the server port, other ports, other addresses, no address
+var froms = []net.Addr{dest, &net.UDPAddr{IP: net.IP{10, 0, 0, 7}, Port: 4011}, &net.UDPAddr{IP: net.ParseIP("fe80::1"), Port: 547, Zone: "eth0"}, &net.UDPAddr{IP: net.IP{10, 0, 0, 9}, Port: 68}, &net.UDPAddr{Port: 1}}
+
 const T = 100 * time.Millisecond
 
 type step struct {
@@ -398,7 +401,7 @@ func execute(t *testing.T, sc scriptT) (res map[int]*result, tx int, matcherNil 
 					if cls == "other-type" {
 						cls = "matching"
 					}
-					conn.Inject(sconn.Datagram{B: f.Datagram(cls, st.Xid, st.Nonce, st.Type), From: dest, Nonce: st.Nonce, Class: st.Class})
+					conn.Inject(sconn.Datagram{B: f.Datagram(cls, st.Xid, st.Nonce, st.Type), From: froms[st.Nonce%len(froms)], Nonce: st.Nonce, Class: st.Class})
 				}
 			case "advance":
 				time.Sleep(time.Duration(st.Dur))
